@@ -20,6 +20,7 @@ import (
 	"fmt"
 	"io"
 	"log/slog"
+	"strings"
 	"sync/atomic"
 	"time"
 
@@ -656,11 +657,21 @@ func (d *db) applyDeleteRange(batch WriteBatch, notifications *notifications, de
 	if err != nil {
 		return nil, err
 	}
+	// A range given by a client can span the records that oxia keeps for itself: the internal prefix sorts
+	// in the middle of the key space, at every depth of the key hierarchy. Those records are not the
+	// client's to delete (nor are they storage entries).
+	userRange := !strings.HasPrefix(delReq.StartInclusive, constant.InternalKeyPrefix)
+	spansInternalKeys := false
+
 	var validKeys []string
 	var validKeysNum = 0
 	for ; it.Valid(); it.Next() {
-		validKeysNum++
 		key := it.Key()
+		if userRange && strings.HasPrefix(key, constant.InternalKeyPrefix) {
+			spansInternalKeys = true
+			continue
+		}
+		validKeysNum++
 		if validKeysNum <= DeleteRangeThreshold {
 			validKeys = append(validKeys, key)
 		}
@@ -682,11 +693,17 @@ func (d *db) applyDeleteRange(batch WriteBatch, notifications *notifications, de
 	if err := it.Close(); err != nil {
 		return nil, errors.Wrap(err, "oxia db: failed to close iterator on delete range")
 	}
-	if validKeysNum > DeleteRangeThreshold {
+	switch {
+	case validKeysNum > DeleteRangeThreshold && spansInternalKeys:
+		// A range tombstone would take the internal records with it
+		if err := deleteUserKeysOneByOne(batch, delReq); err != nil {
+			return nil, err
+		}
+	case validKeysNum > DeleteRangeThreshold:
 		if err := batch.DeleteRange(delReq.StartInclusive, delReq.EndExclusive); err != nil {
 			return nil, errors.Wrap(err, "oxia db: failed to delete range")
 		}
-	} else {
+	default:
 		for _, key := range validKeys {
 			if err := batch.Delete(key); err != nil {
 				return nil, errors.Wrap(err, "oxia db: failed to delete range")
@@ -700,6 +717,28 @@ func (d *db) applyDeleteRange(batch WriteBatch, notifications *notifications, de
 		slog.String("key-end", delReq.EndExclusive),
 	)
 	return &proto.DeleteRangeResponse{Status: proto.Status_OK}, nil
+}
+
+func deleteUserKeysOneByOne(batch WriteBatch, delReq *proto.DeleteRangeRequest) error {
+	it, err := batch.KeyRangeScan(delReq.StartInclusive, delReq.EndExclusive)
+	if err != nil {
+		return err
+	}
+	var keys []string
+	for ; it.Valid(); it.Next() {
+		if key := it.Key(); !strings.HasPrefix(key, constant.InternalKeyPrefix) {
+			keys = append(keys, key)
+		}
+	}
+	if err := it.Close(); err != nil {
+		return errors.Wrap(err, "oxia db: failed to close iterator on delete range")
+	}
+	for _, key := range keys {
+		if err := batch.Delete(key); err != nil {
+			return errors.Wrap(err, "oxia db: failed to delete range")
+		}
+	}
+	return nil
 }
 
 func applyGet(kv KV, getReq *proto.GetRequest) (*proto.GetResponse, error) {
